@@ -278,10 +278,9 @@ def gen_scenario(rng, strategy=None, n_gc=None, feasible=True, features=None, ma
     if strategy == "distributed" and (f.get("sub_strategies") if f.get("sub_strategies") is not None else True):
         # the class's own options: which strategy runs at depots / opportunity stations, and options for it alone.
         # Drawn last, so that every other draw of the scenario is what it was before this block existed.
-        # greedy / balanced / peak_shaving are modelled and tied step by step (harness/s_distributed.py);
-        # peak_load_window additionally needs options["time_windows"] (see the peak_load_window block above)
-        # and is not tied as a sub-strategy yet.
-        subs = ["greedy", "balanced", "peak_shaving"]
+        # greedy / balanced / peak_shaving / peak_load_window are modelled and tied step by step
+        # (harness/s_distributed.py).
+        subs = ["greedy", "balanced", "peak_shaving", "peak_load_window"]
         for side in ("deps", "opps"):
             if rng.random() < 0.3:
                 options["strategy_" + side] = rng.choice(subs)
@@ -293,8 +292,20 @@ def gen_scenario(rng, strategy=None, n_gc=None, feasible=True, features=None, ma
                     own["perfect_foresight"] = False
             elif rng.random() < 0.15:
                 own["PRICE_THRESHOLD"] = rng.choice([0.1, 0.3, -1.0])
+            if options.get("strategy_" + side) == "peak_load_window":
+                own = {}      # peak_load_window has no options of its own besides the time windows
             if own:
                 options["strategy_options_" + side] = own
+        if "peak_load_window" in (options.get("strategy_deps"), options.get("strategy_opps")):
+            # the sub-strategy's constructor reads the parent's option time_windows (run_real writes the file)
+            options["time_windows"] = "@TIME_WINDOWS"
+            meta["time_windows"] = {"default_grid_operator": {
+                "s1": {"start": "2020-01-01", "end": "2020-12-31", "windows": {
+                    lvl: [[rng.choice(["08:15", "11:00"]), rng.choice(["12:30", "13:00"])],
+                          [rng.choice(["16:30", "17:45"]), rng.choice(["19:00", "20:00"])],
+                          ["23:00", "01:00"]] for lvl in ["HV", "MV", "LV"]}}}}
+            if rng.random() < 0.2:
+                meta["time_windows"]["default_grid_operator"]["s1"]["end"] = "2020-01-%02d" % rng.choice([5, 7, 11])
     scn = {"scenario": {"start_time": iso(start), "interval": interval, "n_intervals": n_steps},
            "components": comp, "events": ev}
     if scn_cst is not None:
